@@ -34,9 +34,11 @@ var vfAlphabet = []string{"", "x", "y", "x ", "X", "100% full", "%d%s%v", "%",
 	strings.Repeat("r", 4999) + "a", strings.Repeat("r", 4999) + "b",
 	strings.Repeat("s", 64), strings.Repeat("s", 65), strings.Repeat("s", 1024), strings.Repeat("s", 1025),
 	// distinct messages that collide under common 32-bit checksums (FNV-1a, CRC-32, the 31-multiplier string hash)
-	"costarring", "liquid", "declinate", "macallums", "altarage", "zinke", "plumless", "buckeroo", "Aa", "BB"}
+	"costarring", "liquid", "declinate", "macallums", "altarage", "zinke", "plumless", "buckeroo", "Aa", "BB",
+	// messages that differ only in trailing newlines (the logger adds one only when the message has none)
+	"z", "z\n", "z\n\n"}
 
-const vfC20Rule = "generated: interval from {1ns..1h}, up to 40 (message, delta-t, Print|Printf) arrivals with delta-t drawn from {0, 1ns, I-1ns, I, I+1ns, uniform in [0,2I]} over a 32-symbol alphabet (five pairs collide under FNV-1a, CRC-32 or the 31-multiplier string hash) (incl. the empty message, near-duplicates, messages containing '%' and pairs of long messages that differ only at byte 127, 128, 255, 256, 4999 or by one trailing byte); captured log output compared line by line with the model 'suppressed iff identical to the last printed message and less than I after that print'. Non-trivial: some message was suppressed and later printed again after the interval, and at least two different messages were printed. Distinct by hash of the case."
+const vfC20Rule = "generated: interval from {1ns..1h}, up to 40 (message, delta-t, Print|Printf) arrivals with delta-t drawn from {0, 1ns, I-1ns, I, I+1ns, uniform in [0,2I]} over a 35-symbol alphabet (five pairs collide under FNV-1a, CRC-32 or the 31-multiplier string hash) (incl. the empty message, near-duplicates, messages containing '%' and pairs of long messages that differ only at byte 127, 128, 255, 256, 4999 or by one trailing byte); captured log output compared line by line with the model 'suppressed iff identical to the last printed message and less than I after that print'. Non-trivial: some message was suppressed and later printed again after the interval, and at least two different messages were printed. Distinct by hash of the case."
 
 func vfGenC20(t *rapid.T) vfC20Case {
 	iv := rapid.OneOf(
@@ -133,7 +135,10 @@ func vfRunC20(c vfC20Case) *kit.Result {
 	}
 	wantOut := ""
 	for _, w := range want {
-		wantOut += w + "\n"
+		wantOut += w
+		if !strings.HasSuffix(w, "\n") {
+			wantOut += "\n" // the standard logger ends the line itself only when the message does not
+		}
 	}
 	if buf.String() != wantOut {
 		r.Failf("log output %q, want %q (every printed message unmodified, one line each)", buf.String(), wantOut)
@@ -172,7 +177,7 @@ func vfGenC20Periodic(t *rapid.T) vfC20Periodic {
 	if p >= iv {
 		p = iv - 1
 	}
-	return vfC20Periodic{Interval: iv, Period: p, N: rapid.IntRange(1, 400).Draw(t, "n"), M: rapid.IntRange(0, len(vfAlphabet)-1).Draw(t, "m")}
+	return vfC20Periodic{Interval: iv, Period: p, N: rapid.IntRange(1, 400).Draw(t, "n"), M: rapid.IntRange(0, len(vfAlphabet)-4).Draw(t, "m")}
 }
 
 func vfRunC20Periodic(c vfC20Periodic) *kit.Result {
